@@ -33,6 +33,22 @@ func cancelCorpus(c *Ctx) []*prog.Program {
 	add(cs[4], "catch-par")
 	add(cs[6], "catch-untaken")
 	add(gen.EventGatewayShapes()[0], "evgw")
+	{
+		// a token waits at a timer catch event (one hour, host clock) when the cancel comes
+		b := prog.NewBuilder("timer_catch_host")
+		s := b.AddNode("start", "")
+		t := b.AddNode("task", "")
+		tc := b.AddNode("catch", "")
+		b.N(tc).Evs = []prog.EvDef{{K: "timer", Ref: "D:PT1H"}}
+		u := b.AddNode("task", "")
+		e := b.AddNode("end", "")
+		b.Connect(s, t, prog.Cond{})
+		b.Connect(t, tc, prog.Cond{})
+		b.Connect(tc, u, prog.Cond{})
+		b.Connect(u, e, prog.Cond{})
+		b.P.Tags = append(b.P.Tags, "catch", "timer")
+		add(b.Done(), "timer-host")
+	}
 	bs := gen.BoundaryShapes()
 	add(bs[0], "boundary-i")
 	add(bs[1], "boundary-n")
